@@ -324,6 +324,18 @@ def _replay_summary(rr):
             "assumption_failed": rr["assumption_failed"]}
 
 
+def _judge_replay(rr, ob):
+    if rr["assumption_failed"]:
+        return False, "assumption failed in replay: " + rr["assumption_failed"]
+    if rr["exc"]:
+        if rr["exc"]["blame"][0] == "repo":
+            return True, f"real code raised {rr['exc']['type']}"
+        return False, f"replay raised {rr['exc']['type']} in {rr['exc']['blame']}: {rr['exc']['msg']}"
+    if rr["obs"].get(ob.name) is False:
+        return True, None
+    return False, "obligation holds on the real code for the solver's model"
+
+
 def _discharge(case, c, ob: Ob, out, opts):
     t0 = time.time()
     cond = ob.cond
@@ -356,28 +368,30 @@ def _discharge(case, c, ob: Ob, out, opts):
             out["status"] = "error"
             out["errors"].append(f"obligation {ob.name}: sat but no model could be extracted")
             return
-        rr = concrete_run(case, model, "real")
-        reproduced = False
-        why = None
-        if rr["assumption_failed"]:
-            why = "assumption failed in replay: " + rr["assumption_failed"]
-        elif rr["exc"]:
-            if rr["exc"]["blame"][0] == "repo":
-                reproduced = True
-                why = f"real code raised {rr['exc']['type']}"
-            else:
-                why = f"replay raised {rr['exc']['type']} in {rr['exc']['blame']}: {rr['exc']['msg']}"
-        elif rr["obs"].get(ob.name) is False:
-            reproduced = True
-        else:
-            why = "obligation holds on the real code for the solver's model"
+        candidates = [model]
+        reproduced, why, rr = False, None, None
+        attempt = 0
+        while candidates:
+            model = candidates.pop(0)
+            rr = concrete_run(case, model, "real")
+            reproduced, why = _judge_replay(rr, ob)
+            if reproduced:
+                break
+            attempt += 1
+            if attempt <= 3 and isinstance(cond, Sym):
+                # the solver's corner model may differ from the real run only within float tolerance: look for a
+                # generic witness (random evaluation) and replay that instead
+                w2 = _witness_by_evaluation(c, neg, opts.get("seed", 0) + 101 * attempt, tries=150)
+                if w2 is not None:
+                    candidates.append(w2)
         vrec = {"ob": ob.name, "kind": "obligation", "site": rr["sites"].get(ob.name) or ob.site or case.site or f"{case.name}/{ob.name}",
                 "model": model_jsonable(model), "reproduced": reproduced, "why": why, "replay": _replay_summary(rr)}
         if reproduced:
             out["violations"].append(vrec)
         else:
             out["status"] = "error"
-            out["errors"].append(f"obligation {ob.name}: solver model does not reproduce on the real code ({why}); model={vrec['model']}")
+            out.setdefault("nonrepro", []).append(vrec)
+            out["errors"].append(f"obligation {ob.name}: solver model does not reproduce on the real code ({why}); model={str(vrec['model'])[:300]}")
 
 
 # ---------------------------------------------------------------------------- worker-side task
